@@ -50,10 +50,13 @@ def native_layout(model):
     return O.Layout(cfg.channels, cfg.channel_nbins, slices, cfg.auxdata_order, cfg.npars, codes)
 
 
-def random_theta(model, rng, wide):
+def random_theta(model, rng, wide, far=False):
     th = []
     for (lo, hi), init in zip(model.config.suggested_bounds(), model.config.suggested_init()):
-        if wide:
+        if far and lo < 0:
+            # beyond the suggested bounds of a nuisance parameter (bounds are suggestions; the statement covers every parameter point)
+            th.append(rng.choice([-1.0, 1.0]) * rng.uniform(abs(lo) + 0.5, abs(lo) + 3.0))
+        elif wide:
             th.append(rng.uniform(max(lo, -3.0) if lo < 0 else lo + 1e-3, min(hi, 3.0)))
         else:
             th.append(rng.uniform(max(lo, init - 0.5), min(hi, init + 0.5)))
@@ -90,8 +93,8 @@ def native_compare(skel, variant="default", what="expected", seed=7, batch=None)
         got_aux = [float(x) for x in model.config.auxdata]
         if len(got_aux) != len(want_aux) or any(abs(a - b) > 1e-9 * max(1, abs(b)) for a, b in zip(got_aux, want_aux)):
             bad.append({"what": "config.auxdata (nominal auxiliary data in the reported order, overrides verbatim)", "got": got_aux, "oracle": want_aux})
-    for trial in range(6):
-        rows = [random_theta(model, rng, wide=trial % 2 == 0) for _ in range(batch or 1)]
+    for trial in range(8):
+        rows = [random_theta(model, rng, wide=trial % 2 == 0, far=trial >= 6) for _ in range(batch or 1)]
         nmain = model.config.nmaindata
         datas = []
         for th in rows:
